@@ -13,7 +13,7 @@ EXPLANATION = (
     "stored message; every reply carries the received identifier (def-use identity); delivery passes topic, payload, qos, "
     "dup, retain, msgId of one packet object in the documented order; PUBACK/PUBREC/PUBCOMP are created and written only in "
     "these two network contexts; the receive window is per-address factory state that only the PUBREL handler removes from. "
-    "Decides the structural clauses; exactly-once over histories with reconnects is not decided as behaviour.")
+    "Decides the structural clauses; exactly-once over histories with reconnects is not decided as behaviour. P0: the premises of the framing lemma (every rule of C03) hold, a necessary condition of anything said about inbound packets.")
 ASSUMPTIONS = ["onPublish does not raise into the library"]
 
 
